@@ -1,6 +1,6 @@
 (* Extraction of the executable models (ExtrOcamlBasic only; Z, nat, positive stay Coq datatypes). *)
 From Coq Require Import ZArith List Bool.
-From MV Require Import Prelude.Py Gen.TieredTime Gen.UpdateMin Time.Spec.
+From MV Require Import Prelude.Py Gen.TieredTime Gen.UpdateMin Time.Spec Static.Groups Static.Connect.
 Require Extraction.
 Require Import ExtrOcamlBasic.
 Extraction Language OCaml.
@@ -10,4 +10,6 @@ Extraction "../build/model.ml"
   TieredInterval___eq__ TieredInterval___le__ TieredInterval___gt__ TieredInterval___ge__
   TieredTime___add__ TieredTime___lt__ TieredTime___le__ TieredTime___gt__ TieredTime___ge__ TieredTime_time update_min
   (* specification *)
-  mkI act comp ilt ile igt ige ieq upd_min tlt tle teq wfIb.
+  mkI act comp ilt ile igt ige ieq upd_min tlt tle teq wfIb
+  (* static layer *)
+  wfGb group_path depth connect_interval connect_one should_reject is_rejected mkF.
